@@ -25,6 +25,7 @@ import XotModel.Lemmas.FinvIdIndex
 import XotModel.Lemmas.Fcreation
 import XotModel.Lemmas.FinvTrav
 import XotModel.Lemmas.ArenaExamples
+import XotModel.Lemmas.ArenaStaleExamples
 import XotModel.Lemmas.ArenaSim
 import XotModel.Lemmas.ArenaRemoveRoot
 import XotModel.Lemmas.FpxRefineMain
@@ -1540,5 +1541,413 @@ example : (Forest.XCall.cloneWithPrefixes 1 [(3, 3)]).faithful (xhStore.xrun (xh
   refine ⟨fun b => by rw [h], fun a ha b hb _ => ?_⟩
   rw [List.mem_singleton] at ha hb
   rw [ha, hb]
+
+end XotModel.Props
+
+/-! # ================================================================================================
+    # STALE IDS (branch wt-stale): calls with removed / stale / foreign ids at the arena level
+    # ================================================================================================
+
+  `Arena.classify a x` (Lemmas/ArenaStale.lean) sorts every id into exactly one class with respect to
+  the arena: `live` (the current id of a slot that holds a node), `freed` (removed: the slot is on the
+  free list and has handed out the id's stamp before), `stale` (removed: the slot holds a node again,
+  under a later stamp), `foreign` (never issued: out of range, index 0, negative stamp, or a stamp the
+  slot has not reached).  `Arena.Removed` = `freed` or `stale`.  Decidable (a computable function).
+
+  What indextree 4.7.2 DOES with such ids — proved from the definitions of the pointer-level model,
+  for all arenas (the correspondence suite `arena` compares the same calls with the crate):
+
+    reads         `NodeId::is_removed`: `true` for every removed id, index panic beyond the slot vector;
+                  `Arena::get`: no stamp check — the freed slot itself (`Node::is_removed()` true) resp.
+                  the NEW occupant; `arena[id].get()`: `unreachable!` on a freed slot; no accessor and
+                  no iterator ever writes (`C04_arena_stale_reads`, `_read_only`);
+    `checked_*`   a FREED id in either position: `Err(Removed)`; beyond the slot vector: index panic;
+                  the same id twice: the `…Self` error — all before the first write
+                  (`C04_arena_stale_checked`).  A STALE id is NOT refused: `Removed` is decided by the
+                  sign of the SLOT's stamp, the call goes on with the new occupant
+                  (`C04_arena_stale_passes_removed_check`; closed examples in `Props/C06`);
+    `detach`      no stamp is looked at.  On a slot without parent / sibling pointers (every slot freed
+                  by `remove`, the root freed by `remove_subtree`): `Ok`, arena unchanged
+                  (`C04_arena_stale_detach_partial`).  In general pointers only are written
+                  (`C04_arena_stale_detach_meta`: stamps, payloads, free list, the class of every id are
+                  as before) — but with the stale pointers of a slot freed INSIDE a removed subtree these
+                  are the pointers of the former neighbours' slots, whoever occupies them now: the full
+                  statement is false (`C04_arena_stale_detach_Statement_false`: a live node loses its
+                  children);
+    `remove`, `remove_subtree`
+                  no stamp is looked at: `free_node` runs again (DOUBLE FREE).  On a freed slot whose
+                  five pointers are `None`: `Ok`; the stamp `c < 0` becomes `-c - 1 ≥ 0` over a `NextFree`
+                  payload, the slot is linked into the free list a second time; the arena reached is
+                  NOT well-formed and the id removed last from that slot is reported NOT removed again
+                  (`C04_arena_stale_remove_double_free`; so `C04_arena_stale_remove_Statement` is false);
+    one-argument calls with a STALE id
+                  `detach`, `remove`, `remove_subtree` use the slot index only: the NEW OCCUPANT of the slot
+                  is detached / removed / removed with its subtree, as the refinement theorems say for its
+                  current id; the arena stays well-formed (`C04_arena_stale_acts_on_new_occupant`);
+    iterators     from a removed id: no refusal; they follow whatever pointers the slot keeps; on a
+                  slot whose five pointers are `None` they yield the removed id ITSELF and no children
+                  (`C04_arena_stale_iterators`).
+
+  The headline, `C04_arena_never_hands_out_removed`: in every well-formed (hence every reachable)
+  arena, every pointer read from a live node and every id yielded by ANY iterator started at a live
+  id — for every limit — is a live id; `get_node_id_at` answers live ids only.
+-/
+
+namespace XotModel.Props
+open XotModel
+
+/-- The classification of ids: `live` is `LiveId`; `freed` / `stale` are the two ways of being
+    removed (slot free / slot reused) and exclude `LiveId`; `Removed` is decidable; below saturation
+    `Removed` is the `Gone` of the removed-for-ever theorems. -/
+theorem C04_arena_id_classes (a : Arena) (x : Arena.NodeId) :
+    (a.classify x = .live ↔ Arena.LiveId a x) ∧
+    (a.classify x = .freed → Arena.Freed a x ∧ 1 ≤ x.index1 ∧ 0 ≤ x.stamp) ∧
+    (a.classify x = .stale → Arena.Stale a x ∧ 1 ≤ x.index1 ∧ 0 ≤ x.stamp) ∧
+    (Arena.Removed a x ↔ (a.classify x = .freed ∨ a.classify x = .stale)) ∧
+    (Arena.Removed a x → ¬ Arena.LiveId a x) ∧
+    (Arena.Gone a x → 1 ≤ x.index1 → Arena.Removed a x) ∧
+    (Arena.Removed a x → x.stamp < 32767 → Arena.Gone a x) :=
+  ⟨Arena.classify_live_iff a x,
+   fun h => ⟨(Arena.classify_freed h).1, (Arena.classify_freed h).2.1, (Arena.classify_freed h).2.2.1⟩,
+   fun h => ⟨(Arena.classify_stale h).1, (Arena.classify_stale h).2.1, (Arena.classify_stale h).2.2.1⟩,
+   Iff.rfl, Arena.Removed.not_liveId, Arena.Gone.removed,
+   fun h hlt => by rcases h.gone with hg | ⟨h32, _⟩; exact hg; omega⟩
+
+/-- Removed is for ever, in terms of the classes: a removed id (slot free or reused) with stamp below
+    32767 is a removed id after every further history of calls — whatever happens to its slot. -/
+theorem C04_arena_removed_stays_removed (a a' : Arena) (x : Arena.NodeId) (w : Arena.Wf a)
+    (h : Arena.Removed a x) (hlt : x.stamp < 32767) (hist : Arena.Steps a a') :
+    Arena.Removed a' x ∧ Arena.isRemoved a' x = .done a' true :=
+  ⟨h.forever w hlt hist, (h.forever w hlt hist).isRemoved⟩
+
+/-- The read accessors on removed and foreign ids. -/
+theorem C04_arena_stale_reads (a : Arena) (x : Arena.NodeId) :
+    (Arena.Removed a x → Arena.isRemoved a x = .done a true) ∧
+    (a.slot x.index0 = none → Arena.isRemoved a x = .panic a ∧ a.get x = none) ∧
+    (Arena.Freed a x → ∃ s, a.get x = some s ∧ s.isRemoved = true) ∧
+    (Arena.Stale a x → ∃ s, a.get x = some s ∧ s.isRemoved = false ∧ s.stamp ≠ x.stamp ∧
+      Arena.LiveId a ⟨x.index0 + 1, s.stamp⟩) ∧
+    (Arena.Wf a → Arena.Freed a x → Arena.value a x = .panic a) ∧
+    (Arena.Wf a → Arena.Stale a x → ∃ v, Arena.value a x = .done a v) :=
+  ⟨Arena.Removed.isRemoved, fun h => ⟨Arena.isRemoved_out_of_range h, h⟩, Arena.Freed.get, Arena.Stale.get,
+   fun ⟨_, r⟩ h => h.value_panics r, fun ⟨_, r⟩ h => h.value r⟩
+
+/-- No read accessor and no iterator writes: for EVERY arena and EVERY id (live, removed, foreign) and
+    every limit, the arena reached — also when the call panics — is the arena given. -/
+theorem C04_arena_stale_read_only (a : Arena) (x : Arena.NodeId) (limit : Nat) :
+    (Arena.isRemoved a x).arena = a ∧ (Arena.value a x).arena = a ∧
+    (Arena.ancestors a x limit).arena = a ∧ (Arena.predecessors a x limit).arena = a ∧
+    (Arena.children a x limit).arena = a ∧ (Arena.childrenRev a x limit).arena = a ∧
+    (Arena.reverseChildren a x limit).arena = a ∧ (Arena.followingSiblings a x limit).arena = a ∧
+    (Arena.precedingSiblings a x limit).arena = a ∧ (Arena.traverse a x limit).arena = a ∧
+    (Arena.reverseTraverse a x limit).arena = a ∧ (Arena.descendants a x limit).arena = a :=
+  ⟨Arena.isRemoved_arena a x, Arena.value_arena a x, Arena.iterators_arena a x limit⟩
+
+/-- `checked_append` / `checked_prepend` / `checked_insert_after` / `checked_insert_before` with a
+    FREED id (`FreedArg`: `self`'s slot is free — the other id is then not even looked at — or `self`'s
+    slot holds a node and the other id's slot is free): `Err(Removed)`; with an id beyond the slot vector
+    (`OutOfRangeArg`): `arena[..]` panics; both with the arena literally unchanged, on EVERY arena. -/
+theorem C04_arena_stale_checked (a : Arena) (x y : Arena.NodeId) (hne : y ≠ x) :
+    (Arena.FreedArg a x y →
+      Arena.checkedAppend a x y = .done a (.error .removed) ∧ Arena.checkedPrepend a x y = .done a (.error .removed) ∧
+      Arena.checkedInsertAfter a x y = .done a (.error .removed) ∧
+      Arena.checkedInsertBefore a x y = .done a (.error .removed)) ∧
+    (Arena.OutOfRangeArg a x y →
+      Arena.checkedAppend a x y = .panic a ∧ Arena.checkedPrepend a x y = .panic a ∧
+      Arena.checkedInsertAfter a x y = .panic a ∧ Arena.checkedInsertBefore a x y = .panic a) :=
+  ⟨fun h => ⟨Arena.checkedAppend_freed hne h, Arena.checkedPrepend_freed hne h, Arena.checkedInsertAfter_freed hne h,
+     Arena.checkedInsertBefore_freed hne h⟩,
+   fun h => ⟨Arena.checkedAppend_out_of_range hne h, Arena.checkedPrepend_out_of_range hne h,
+     Arena.checkedInsertAfter_out_of_range hne h, Arena.checkedInsertBefore_out_of_range hne h⟩⟩
+
+/-- The same in terms of the classes: a `freed` id as `self` with ANY other id, or as the other id with a
+    `live` or `stale` `self`; and the unchecked wrappers (`append`, …) then panic on their `expect`. -/
+theorem C04_arena_stale_checked_classes (a : Arena) (x y : Arena.NodeId) (hne : y ≠ x)
+    (h : a.classify x = .freed ∨ ((a.classify x = .live ∨ a.classify x = .stale) ∧ a.classify y = .freed)) :
+    Arena.checkedAppend a x y = .done a (.error .removed) ∧ Arena.checkedPrepend a x y = .done a (.error .removed) ∧
+    Arena.checkedInsertAfter a x y = .done a (.error .removed) ∧
+    Arena.checkedInsertBefore a x y = .done a (.error .removed) ∧
+    Arena.append a x y = .panic a ∧ Arena.prepend a x y = .panic a ∧ Arena.insertAfter a x y = .panic a ∧
+    Arena.insertBefore a x y = .panic a :=
+  have hf := Arena.freedArg_of_classes h
+  ⟨Arena.checkedAppend_freed hne hf, Arena.checkedPrepend_freed hne hf, Arena.checkedInsertAfter_freed hne hf,
+   Arena.checkedInsertBefore_freed hne hf, Arena.append_freed hne hf, Arena.prepend_freed hne hf,
+   Arena.insertAfter_freed hne hf, Arena.insertBefore_freed hne hf⟩
+
+/-- A STALE id is not refused: the test `arena[self].is_removed() || arena[other].is_removed()` looks at
+    the slots, and both slots hold nodes. -/
+theorem C04_arena_stale_passes_removed_check (a : Arena) (x y : Arena.NodeId)
+    (hx : Arena.LiveId a x ∨ Arena.Stale a x) (hy : Arena.LiveId a y ∨ Arena.Stale a y) :
+    Arena.eitherRemoved a x y = .done a false :=
+  Arena.eitherRemoved_occupied (hx.elim Arena.LiveId.occupied Arena.Stale.occupied)
+    (hy.elim Arena.LiveId.occupied Arena.Stale.occupied)
+
+/-- A FOREIGN id beyond the slot vector: every call panics on its first `arena[id]` (index out of bounds;
+    `following_siblings` / `preceding_siblings`: `arena.get(id).unwrap()`), before any write.  (An
+    in-range foreign id is treated like a removed one: no function can tell them apart.) -/
+theorem C04_arena_foreign_out_of_range (a : Arena) (x : Arena.NodeId) (h : a.slot x.index0 = none) (n : Nat) :
+    Arena.detach a x = .panic a ∧ Arena.remove a x = .panic a ∧ Arena.removeSubtree a x = .panic a ∧
+    Arena.isRemoved a x = .panic a ∧ Arena.value a x = .panic a ∧
+    Arena.children a x n = .panic a ∧ Arena.reverseChildren a x n = .panic a ∧
+    Arena.ancestors a x (n + 1) = .panic a ∧ Arena.followingSiblings a x n = .panic a ∧
+    Arena.precedingSiblings a x n = .panic a ∧ Arena.traverse a x (n + 1) = .panic a ∧
+    Arena.reverseTraverse a x (n + 1) = .panic a ∧ Arena.descendants a x (n + 1) = .panic a :=
+  Arena.out_of_range_panics a x h n
+
+/-- Full-strength statement for `detach` (FALSE, see below): a removed id leaves the arena alone. -/
+def C04_arena_stale_detach_Statement : Prop :=
+  ∀ (a : Arena) (x : Arena.NodeId), Arena.Wf a → Arena.Removed a x → Arena.detach a x = .done a ()
+
+/-- `detach` of an id whose slot has no `parent`, `previous_sibling`, `next_sibling` (every slot freed
+    by `remove`; the root freed by `remove_subtree`): `Ok`, arena literally unchanged — every arena. -/
+theorem C04_arena_stale_detach_partial (a : Arena) (x : Arena.NodeId) (s : Arena.Slot)
+    (hs : a.slot x.index0 = some s) (hu : s.Unlinked) : Arena.detach a x = .done a () :=
+  Arena.detach_unlinked a x s hs hu
+
+/-- `detach` of ANY id whose slot exists and whose three neighbour pointers are in range and name other
+    slots: `Ok`; only pointers are written: stamps, payloads, the free list and the class of every id
+    are as before. -/
+theorem C04_arena_stale_detach_meta (a : Arena) (x : Arena.NodeId) (s : Arena.Slot) (hs : a.slot x.index0 = some s)
+    (hp : Arena.InRange a s.parent) (hv : Arena.InRange a s.prev) (hn : Arena.InRange a s.next)
+    (h1 : ∀ id, s.parent = some id → id.index0 ≠ x.index0) (h2 : ∀ id, s.prev = some id → id.index0 ≠ x.index0)
+    (h3 : ∀ id, s.next = some id → id.index0 ≠ x.index0) :
+    ∃ a', Arena.detach a x = .done a' () ∧ Arena.MetaEq a a' ∧ ∀ y, a'.classify y = a.classify y := by
+  obtain ⟨a', h, m⟩ := Arena.detach_metaEq a x s hs hp hv hn h1 h2 h3
+  exact ⟨a', h, m, m.classify⟩
+
+/-- The full statement is false: in `sampleH` (reachable: `1:0`, `2:1 [3:0]`, slot 3 freed inside a
+    removed subtree and still naming its former parent `2:0`, whose slot now holds `2:1`), `detach(4:0)`
+    clears `first_child` / `last_child` of the live node `2:1`, whose child `3:0` still names it as parent:
+    the arena reached is not well-formed. -/
+theorem C04_arena_stale_detach_Statement_false : ¬ C04_arena_stale_detach_Statement := by
+  intro h
+  have := h Arena.sampleH ⟨4, 0⟩ Arena.sampleH_wf (by decide)
+  revert this
+  decide
+
+theorem C04_arena_stale_detach_breaks_wf :
+    Arena.Wf Arena.sampleH ∧ Arena.Removed Arena.sampleH ⟨4, 0⟩ ∧
+    ∃ a', Arena.detach Arena.sampleH ⟨4, 0⟩ = .done a' () ∧ ¬ Arena.Wf a' := by
+  refine ⟨Arena.sampleH_wf, by decide, _, rfl, ?_⟩
+  exact Arena.not_wf_of_orphan (c := 2) (y := ⟨2, 1⟩) rfl (by decide) rfl rfl (by decide) rfl
+
+/-- Full-strength statement for `remove` / `remove_subtree` (FALSE): a removed id is refused or at
+    least leaves a well-formed arena. -/
+def C04_arena_stale_remove_Statement : Prop :=
+  ∀ (a : Arena) (x : Arena.NodeId), Arena.Wf a → Arena.Removed a x →
+    Arena.Wf (Arena.remove a x).arena ∧ Arena.Wf (Arena.removeSubtree a x).arena
+
+/-- DOUBLE FREE: `remove` and `remove_subtree` of an id whose slot is free with all five pointers `None`
+    (what `remove` leaves), on a well-formed arena: both answer `Ok` with the same arena; the slot's
+    stamp `c < 0` becomes `-c - 1 ≥ 0`; the arena reached is NOT well-formed; `is_removed` of the id is now
+    `false` exactly for the id that was removed last from the slot (stamp `-c - 1`): a removed node is
+    handed back as not removed.  No other slot's stamp changes. -/
+theorem C04_arena_stale_remove_double_free (a : Arena) (w : Arena.Wf a) (x : Arena.NodeId) (s : Arena.Slot)
+    (hs : a.slot x.index0 = some s) (hn : s.stamp < 0) (hc : s.Cleared) :
+    ∃ a', Arena.remove a x = .done a' () ∧ Arena.removeSubtree a x = .done a' () ∧ ¬ Arena.Wf a' ∧
+      Arena.isRemoved a' x = .done a' (decide (x.stamp ≠ -s.stamp - 1)) ∧
+      (∀ j, j ≠ x.index0 → (a'.slot j).map (·.stamp) = (a.slot j).map (·.stamp)) := by
+  obtain ⟨g, r⟩ := w
+  exact r.remove_freed_cleared x s hs hn hc
+
+theorem C04_arena_stale_remove_Statement_false : ¬ C04_arena_stale_remove_Statement := by
+  intro h
+  obtain ⟨a', h1, _, h3, _⟩ := C04_arena_stale_remove_double_free Arena.sampleF Arena.sampleF_wf ⟨3, 0⟩
+    { stamp := -1, data := .nextFree none } rfl (by decide) (by decide)
+  have := (h Arena.sampleF ⟨3, 0⟩ Arena.sampleF_wf (by decide)).1
+  rw [h1] at this
+  exact h3 this
+
+/-- **A stale id acts on the new occupant.**  `detach`, `remove`, `remove_subtree` (and `children`,
+    `reverse_children`) use nothing of their id but the slot index — on EVERY arena the call with any id
+    is the call with the current id of that slot.  For a STALE id that current id is a live id of
+    ANOTHER node: it is that node which is detached / removed / removed with its whole subtree, exactly
+    as the refinement theorems say (`C04_arena_refines_detach`, `_remove`, `_remove_subtree`); the arena
+    stays well-formed, nothing is refused. -/
+theorem C04_arena_stale_acts_on_new_occupant (a : Arena) (g : Arena.Shape) (r : Arena.Rep a g) (x : Arena.NodeId)
+    (hx : Arena.Stale a x) :
+    Arena.LiveId a (a.idAt x.index0) ∧ a.idAt x.index0 ≠ x ∧
+    Arena.detach a x = Arena.detach a (a.idAt x.index0) ∧ Arena.remove a x = Arena.remove a (a.idAt x.index0) ∧
+    Arena.removeSubtree a x = Arena.removeSubtree a (a.idAt x.index0) ∧
+    (∀ n, Arena.children a x n = Arena.children a (a.idAt x.index0) n ∧
+      Arena.reverseChildren a x n = Arena.reverseChildren a (a.idAt x.index0) n) ∧
+    (∃ a', Arena.detach a x = .done a' () ∧ Arena.Rep a' (g.detach x.index0)) ∧
+    (∃ a' l, Arena.removeSubtree a x = .done a' () ∧ Arena.Rep a' ((g.detach x.index0).prune l) ∧
+      (∀ u, u ∈ l ↔ Arena.Reach g.par u x.index0)) := by
+  obtain ⟨hl, hne⟩ := hx.current
+  obtain ⟨e1, e2, e3⟩ := Arena.one_arg_current a x
+  refine ⟨hl, hne, e1, e2, e3, fun n => Arena.children_index0 a x _ (by simp) n, ?_, ?_⟩
+  · obtain ⟨a', h, r', _⟩ := C04_arena_refines_detach a g r _ hl
+    rw [Arena.idAt_index0] at r'
+    exact ⟨a', e1.trans h, r'⟩
+  · obtain ⟨a', l, h, r', _, hm, _⟩ := C04_arena_refines_remove_subtree a g r x.index0 hl.2.1
+    exact ⟨a', l, e3.trans h, r', hm⟩
+
+/-- The index-only fact by itself, for every arena and every id. -/
+theorem C04_arena_one_arg_calls_index_only (a : Arena) (x y : Arena.NodeId) (h : x.index0 = y.index0) :
+    Arena.detach a x = Arena.detach a y ∧ Arena.remove a x = Arena.remove a y ∧
+    Arena.removeSubtree a x = Arena.removeSubtree a y :=
+  ⟨Arena.detach_index0 a x y h, Arena.remove_index0 a x y h, Arena.removeSubtree_index0 a x y h⟩
+
+/-- The iterators from an id whose slot has all five pointers `None` (a slot freed by `remove`): no
+    refusal and no panic; they yield the id ITSELF — a removed id when the slot is free — and no
+    children; the arena is unchanged. -/
+theorem C04_arena_stale_iterators (a : Arena) (x : Arena.NodeId) (s : Arena.Slot) (hs : a.slot x.index0 = some s)
+    (hc : s.Cleared) (n : Nat) :
+    Arena.children a x n = .done a [] ∧ Arena.reverseChildren a x n = .done a [] ∧
+    Arena.ancestors a x (n + 1) = .done a [x] ∧ Arena.followingSiblings a x (n + 1) = .done a [x] ∧
+    Arena.precedingSiblings a x (n + 1) = .done a [x] ∧
+    Arena.traverse a x (n + 2) = .done a [.start x, .end x] ∧
+    Arena.reverseTraverse a x (n + 2) = .done a [.end x, .start x] ∧
+    Arena.descendants a x (n + 2) = .done a [x] :=
+  Arena.iterators_cleared a x s hs hc n
+
+/-- **No accessor and no iterator hands out a removed node.**  In a well-formed arena, for a LIVE id `x`:
+    every pointer of its slot (`parent`, `previous_sibling`, `next_sibling`, `first_child`,
+    `last_child`) is `None` or a live id; every id yielded by `ancestors`, `predecessors`, `children`,
+    `children().rev()`, `reverse_children`, `following_siblings`, `preceding_siblings`, `descendants`
+    and the node of every edge yielded by `traverse`, `reverse_traverse` is a live id — for EVERY limit,
+    also one that cuts the iteration short (with a sufficient limit the results are the list-level
+    lists: `C07_arena_iterators`, `C07_arena_traverse`, `C07_arena_reverse_traverse`); a live id is not
+    removed and `is_removed` says so. -/
+theorem C04_arena_never_hands_out_removed (a : Arena) (w : Arena.Wf a) (x : Arena.NodeId) (hx : Arena.LiveId a x)
+    (limit : Nat) :
+    (∃ s, a.get x = some s ∧ s.isRemoved = false ∧
+      (∀ y, s.parent = some y → Arena.LiveId a y) ∧ (∀ y, s.prev = some y → Arena.LiveId a y) ∧
+      (∀ y, s.next = some y → Arena.LiveId a y) ∧ (∀ y, s.first = some y → Arena.LiveId a y) ∧
+      (∀ y, s.last = some y → Arena.LiveId a y)) ∧
+    (∀ a' l, Arena.ancestors a x limit = .done a' l → ∀ y ∈ l, Arena.LiveId a y) ∧
+    (∀ a' l, Arena.predecessors a x limit = .done a' l → ∀ y ∈ l, Arena.LiveId a y) ∧
+    (∀ a' l, Arena.children a x limit = .done a' l → ∀ y ∈ l, Arena.LiveId a y) ∧
+    (∀ a' l, Arena.childrenRev a x limit = .done a' l → ∀ y ∈ l, Arena.LiveId a y) ∧
+    (∀ a' l, Arena.reverseChildren a x limit = .done a' l → ∀ y ∈ l, Arena.LiveId a y) ∧
+    (∀ a' l, Arena.followingSiblings a x limit = .done a' l → ∀ y ∈ l, Arena.LiveId a y) ∧
+    (∀ a' l, Arena.precedingSiblings a x limit = .done a' l → ∀ y ∈ l, Arena.LiveId a y) ∧
+    (∀ a' l, Arena.traverse a x limit = .done a' l → ∀ e ∈ l, Arena.LiveId a e.node) ∧
+    (∀ a' l, Arena.reverseTraverse a x limit = .done a' l → ∀ e ∈ l, Arena.LiveId a e.node) ∧
+    (∀ a' l, Arena.descendants a x limit = .done a' l → ∀ y ∈ l, Arena.LiveId a y) ∧
+    (∀ y, Arena.LiveId a y → ¬ Arena.Removed a y ∧ Arena.isRemoved a y = .done a false) := by
+  obtain ⟨g, r⟩ := w
+  obtain ⟨s, hs, h0, hp⟩ := r.liveId_ptrs hx
+  refine ⟨⟨s, hs, ?_, hp⟩, ?_⟩
+  · simp [Arena.Slot.isRemoved, Arena.Stamp.isRemoved]; omega
+  · obtain ⟨h1, h2, h3, h4, h5, h6, h7, h8, h9, h10⟩ := r.iterators_live hx limit
+    exact ⟨h1, h2, h3, h4, h5, h6, h7, h8, h9, h10, fun y hy => ⟨fun hr => hr.not_liveId hy, hy.isRemoved⟩⟩
+
+/-- The same in every REACHABLE arena (histories of calls with live arguments from the empty arena),
+    with what the iterators return: nothing they yield is a removed id. -/
+theorem C04_arena_never_hands_out_removed_reachable (a : Arena) (h : Arena.Steps {} a) (x : Arena.NodeId)
+    (hx : Arena.LiveId a x) (limit : Nat) :
+    (∀ a' l, Arena.ancestors a x limit = .done a' l → ∀ y ∈ l, ¬ Arena.Removed a y) ∧
+    (∀ a' l, Arena.children a x limit = .done a' l → ∀ y ∈ l, ¬ Arena.Removed a y) ∧
+    (∀ a' l, Arena.reverseChildren a x limit = .done a' l → ∀ y ∈ l, ¬ Arena.Removed a y) ∧
+    (∀ a' l, Arena.followingSiblings a x limit = .done a' l → ∀ y ∈ l, ¬ Arena.Removed a y) ∧
+    (∀ a' l, Arena.precedingSiblings a x limit = .done a' l → ∀ y ∈ l, ¬ Arena.Removed a y) ∧
+    (∀ a' l, Arena.descendants a x limit = .done a' l → ∀ y ∈ l, ¬ Arena.Removed a y) ∧
+    (∀ a' l, Arena.traverse a x limit = .done a' l → ∀ e ∈ l, ¬ Arena.Removed a e.node) ∧
+    (∀ a' l, Arena.reverseTraverse a x limit = .done a' l → ∀ e ∈ l, ¬ Arena.Removed a e.node) := by
+  obtain ⟨_, h1, _, h3, _, h5, h6, h7, h8, h9, h10, _⟩ :=
+    C04_arena_never_hands_out_removed a (C04_arena_wf_reachable a h) x hx limit
+  exact ⟨fun a' l e y hy hr => hr.not_liveId (h1 a' l e y hy), fun a' l e y hy hr => hr.not_liveId (h3 a' l e y hy),
+    fun a' l e y hy hr => hr.not_liveId (h5 a' l e y hy), fun a' l e y hy hr => hr.not_liveId (h6 a' l e y hy),
+    fun a' l e y hy hr => hr.not_liveId (h7 a' l e y hy), fun a' l e y hy hr => hr.not_liveId (h10 a' l e y hy),
+    fun a' l e y hy hr => hr.not_liveId (h8 a' l e y hy), fun a' l e y hy hr => hr.not_liveId (h9 a' l e y hy)⟩
+
+/-- `Arena::get_node_id_at` (no stamp to compare: it builds the id from the slot) answers live ids only. -/
+theorem C04_arena_get_node_id_at_live (a : Arena) (i : Nat) (x : Arena.NodeId) (h1 : 1 ≤ i)
+    (h : a.getNodeIdAt i = some x) : Arena.LiveId a x :=
+  Arena.getNodeIdAt_live h1 h
+
+/-- Non-vacuity and the examples by evaluation.  `sampleC` (slot 1 reused once): the old id `2:0` is
+    stale, the new id `2:1` is live, `2:2` / `5:0` / `2:-1` are foreign; `is_removed`, `get`, `value` on
+    them.  `sampleF` (`3:0` removed by `remove`: slot free, pointers cleared), `sampleG` (`2:0`, `4:0`
+    removed by `remove_subtree`: stale pointers kept), `sampleH` (slot 1 reused as `2:1` with child `3:0`):
+    the classes; `checked_*` refuse the freed id in both positions and panic beyond the slot vector;
+    `detach(3:0)` on the cleared slot changes nothing; `detach(4:0)` on `sampleG` rewrites the freed
+    slot 1 (the arena changes, still well-formed), on `sampleH` it breaks the live node `2:1`; `remove(3:0)`
+    a second time revives `3:0` and leaves an arena that is not well-formed; iterators from removed ids
+    yield removed ids (`ancestors(4:0)` = `[4:0, 2:0]` in `sampleG`). -/
+example : Arena.sampleC.classify ⟨2, 0⟩ = .stale ∧ Arena.sampleC.classify ⟨2, 1⟩ = .live ∧
+    Arena.sampleC.classify ⟨2, 2⟩ = .foreign ∧ Arena.sampleC.classify ⟨5, 0⟩ = .foreign ∧
+    Arena.sampleC.classify ⟨2, -1⟩ = .foreign ∧ Arena.sampleC.classify ⟨0, 0⟩ = .foreign ∧
+    Arena.Removed Arena.sampleC ⟨2, 0⟩ ∧ ¬ Arena.Removed Arena.sampleC ⟨2, 1⟩ ∧
+    Arena.isRemoved Arena.sampleC ⟨2, 0⟩ = .done Arena.sampleC true ∧
+    Arena.isRemoved Arena.sampleC ⟨2, 1⟩ = .done Arena.sampleC false ∧
+    Arena.isRemoved Arena.sampleC ⟨5, 0⟩ = .panic Arena.sampleC ∧
+    Arena.value Arena.sampleC ⟨2, 0⟩ = .done Arena.sampleC 50 ∧
+    Arena.sampleC.getNodeIdAt 2 = some ⟨2, 1⟩ := by decide
+
+example : Arena.sampleF.classify ⟨3, 0⟩ = .freed ∧ Arena.sampleF.classify ⟨3, 1⟩ = .foreign ∧
+    Arena.sampleG.classify ⟨2, 0⟩ = .freed ∧ Arena.sampleG.classify ⟨4, 0⟩ = .freed ∧
+    Arena.sampleH.classify ⟨2, 0⟩ = .stale ∧ Arena.sampleH.classify ⟨2, 1⟩ = .live ∧
+    Arena.sampleH.classify ⟨4, 0⟩ = .freed ∧
+    Arena.isRemoved Arena.sampleF ⟨3, 0⟩ = .done Arena.sampleF true ∧
+    Arena.value Arena.sampleF ⟨3, 0⟩ = .panic Arena.sampleF ∧
+    (Arena.sampleF.get ⟨3, 0⟩).map (·.isRemoved) = some true ∧ Arena.sampleF.getNodeIdAt 3 = none := by decide
+
+example : Arena.checkedAppend Arena.sampleF ⟨1, 0⟩ ⟨3, 0⟩ = .done Arena.sampleF (.error .removed) ∧
+    Arena.checkedAppend Arena.sampleF ⟨3, 0⟩ ⟨1, 0⟩ = .done Arena.sampleF (.error .removed) ∧
+    Arena.checkedAppend Arena.sampleF ⟨3, 0⟩ ⟨9, 0⟩ = .done Arena.sampleF (.error .removed) ∧
+    Arena.checkedPrepend Arena.sampleF ⟨2, 0⟩ ⟨3, 0⟩ = .done Arena.sampleF (.error .removed) ∧
+    Arena.checkedInsertAfter Arena.sampleF ⟨4, 0⟩ ⟨3, 0⟩ = .done Arena.sampleF (.error .removed) ∧
+    Arena.checkedInsertBefore Arena.sampleF ⟨3, 0⟩ ⟨4, 0⟩ = .done Arena.sampleF (.error .removed) ∧
+    Arena.checkedAppend Arena.sampleF ⟨3, 0⟩ ⟨3, 0⟩ = .done Arena.sampleF (.error .appendSelf) ∧
+    Arena.checkedAppend Arena.sampleF ⟨1, 0⟩ ⟨9, 0⟩ = .panic Arena.sampleF ∧
+    Arena.checkedAppend Arena.sampleF ⟨9, 0⟩ ⟨3, 0⟩ = .panic Arena.sampleF ∧
+    Arena.append Arena.sampleF ⟨1, 0⟩ ⟨3, 0⟩ = .panic Arena.sampleF := by decide
+
+example : Arena.detach Arena.sampleF ⟨3, 0⟩ = .done Arena.sampleF () ∧
+    (match Arena.detach Arena.sampleG ⟨4, 0⟩ with
+     | .done a' () => a' != Arena.sampleG && a'.wf && (a'.get ⟨2, 0⟩).map (·.first) == some none
+     | _ => false) = true ∧
+    (match Arena.detach Arena.sampleH ⟨4, 0⟩ with
+     | .done a' () => !a'.wf && (a'.get ⟨2, 1⟩).map (·.first) == some none &&
+         (a'.get ⟨3, 0⟩).map (·.parent) == some (some ⟨2, 1⟩)
+     | _ => false) = true ∧
+    (match Arena.remove Arena.sampleF ⟨3, 0⟩ with
+     | .done a' () => !a'.wf && Arena.isRemoved a' ⟨3, 0⟩ == .done a' false &&
+         Arena.removeSubtree Arena.sampleF ⟨3, 0⟩ == .done a' ()
+     | _ => false) = true ∧
+    (match Arena.removeSubtree Arena.sampleG ⟨2, 0⟩ with
+     | .done a' () => !a'.wf && Arena.isRemoved a' ⟨2, 0⟩ == .done a' false && Arena.isRemoved a' ⟨4, 0⟩ == .done a' false
+     | _ => false) = true := by decide
+
+example : Arena.children Arena.sampleF ⟨3, 0⟩ 9 = .done Arena.sampleF [] ∧
+    Arena.ancestors Arena.sampleF ⟨3, 0⟩ 9 = .done Arena.sampleF [⟨3, 0⟩] ∧
+    Arena.descendants Arena.sampleF ⟨3, 0⟩ 9 = .done Arena.sampleF [⟨3, 0⟩] ∧
+    Arena.ancestors Arena.sampleG ⟨4, 0⟩ 9 = .done Arena.sampleG [⟨4, 0⟩, ⟨2, 0⟩] ∧
+    Arena.children Arena.sampleG ⟨2, 0⟩ 9 = .done Arena.sampleG [⟨4, 0⟩] ∧
+    Arena.descendants Arena.sampleG ⟨2, 0⟩ 9 = .done Arena.sampleG [⟨2, 0⟩, ⟨4, 0⟩] ∧
+    Arena.children Arena.sampleH ⟨2, 0⟩ 9 = .done Arena.sampleH [⟨3, 0⟩] ∧
+    Arena.descendants Arena.sampleH ⟨1, 0⟩ 9 = .done Arena.sampleH [⟨1, 0⟩] ∧
+    Arena.descendants Arena.sampleH ⟨2, 1⟩ 9 = .done Arena.sampleH [⟨2, 1⟩, ⟨3, 0⟩] := by decide
+
+/-- The stale id `2:0` in `sampleH` (`1:0`, `2:1 [3:0]`): `detach`, `remove`, `remove_subtree` with it are the
+    calls with `2:1`; `remove_subtree(2:0)` removes the live nodes `2:1` and `3:0`. -/
+example : Arena.Stale Arena.sampleH ⟨2, 0⟩ ∧ Arena.sampleH.idAt 1 = ⟨2, 1⟩ :=
+  ⟨⟨_, rfl, by decide, by decide⟩, rfl⟩
+example : Arena.detach Arena.sampleH ⟨2, 0⟩ = Arena.detach Arena.sampleH ⟨2, 1⟩ ∧
+    Arena.removeSubtree Arena.sampleH ⟨2, 0⟩ = Arena.removeSubtree Arena.sampleH ⟨2, 1⟩ ∧
+    (match Arena.removeSubtree Arena.sampleH ⟨2, 0⟩ with
+     | .done a' () => a'.wf && Arena.isRemoved a' ⟨2, 1⟩ == .done a' true && Arena.isRemoved a' ⟨3, 0⟩ == .done a' true
+     | _ => false) = true := by decide
+
+/-- Non-vacuity of the hypotheses: `sampleF`, `sampleG`, `sampleH` are reachable, hence well-formed; the
+    freed slot of `sampleF` is `Cleared`, the freed root slot of `sampleG` is `Unlinked` but not
+    `Cleared`, the freed inner slot of `sampleG` is not even `Unlinked`; `FreedArg` / `OutOfRangeArg`
+    hold for the calls above. -/
+example : Arena.Wf Arena.sampleF ∧ Arena.Wf Arena.sampleG ∧ Arena.Wf Arena.sampleH :=
+  ⟨Arena.sampleF_wf, Arena.sampleG_wf, Arena.sampleH_wf⟩
+
+example : (∃ s, Arena.sampleF.slot 2 = some s ∧ s.stamp < 0 ∧ s.Cleared) ∧
+    (∃ s, Arena.sampleG.slot 1 = some s ∧ s.stamp < 0 ∧ s.Unlinked ∧ ¬ s.Cleared) ∧
+    (∃ s, Arena.sampleG.slot 3 = some s ∧ s.stamp < 0 ∧ ¬ s.Unlinked) :=
+  ⟨⟨_, rfl, by decide, by decide⟩, ⟨_, rfl, by decide, by decide, by decide⟩, ⟨_, rfl, by decide, by decide⟩⟩
+
+example : Arena.FreedArg Arena.sampleF ⟨3, 0⟩ ⟨9, 0⟩ ∧ Arena.FreedArg Arena.sampleF ⟨1, 0⟩ ⟨3, 0⟩ ∧
+    Arena.OutOfRangeArg Arena.sampleF ⟨1, 0⟩ ⟨9, 0⟩ ∧ Arena.LiveId Arena.sampleH ⟨2, 1⟩ ∧
+    Arena.Stale Arena.sampleH ⟨2, 0⟩ :=
+  ⟨Or.inl ⟨_, rfl, by decide⟩, Or.inr ⟨⟨_, rfl, by decide⟩, ⟨_, rfl, by decide⟩⟩,
+   Or.inr ⟨⟨_, rfl, by decide⟩, rfl⟩, Arena.liveId_of_isLiveId (by decide), ⟨_, rfl, by decide, by decide⟩⟩
 
 end XotModel.Props
